@@ -85,6 +85,9 @@ def run(ck, tier):
     ck.rule('R6', 'the client-side receiver drops an abandoned partial reply before the next transaction (shared with C08 R4)')
     from ..share import import_findings
     import_findings(ck, 'C08', 'R6', ('R4',), 'the fragment stays at the head of the buffer and every later reply is appended behind it: the master is deaf from then on')
+    ck.rule('R7', 'every class lookupPduClass can hand the RTU framer knows its frame size, and the table is consulted with the byte as received: no exception other than the caught IndexError leaves the frame-size oracle (shared with C03 R3)')
+    from .c03 import r3_lookup_pdu_class
+    ck.guard(r3_lookup_pdu_class, ck, cx, 'R7')
     ck.floor('R1', n1, 3, 'failed-integrity paths')
     ck.floor('R2', n2, 3, 'foreign-unit paths')
     ck.floor('R3', n3, 2, 'garbage-prefix paths')
